@@ -73,7 +73,7 @@ func Setup() {
 }
 
 func genOpts() hx.GenOpts {
-	o := hx.GenOpts{MaxEvents: 5, MaxDepth: 2, Attrs: 2, NS: 0, Other: true, SymNames: true}
+	o := hx.GenOpts{MaxEvents: 5, MaxDepth: 2, Attrs: 1, NS: 1, Other: true, SymNames: true}
 	if nd.Tier() > 0 {
 		o.MaxEvents, o.MaxDepth = 6, 3
 	}
